@@ -62,8 +62,7 @@ def isCloseSend : Label M E → Bool
   | _ => false
 
 /-- the client half-closed (Incoming.Recv returned EOF) -/
-def clientClosed (tr : List (Label M E)) : Bool :=
-  tr.any (fun l => match l with | .incRecvRet .eof => true | _ => false)
+def clientClosed (tr : List (Label M E)) : Bool := tr.any isClientEOF
 
 def closeSendCalled (tr : List (Label M E)) : Bool := tr.any isCloseSend
 
@@ -73,39 +72,43 @@ def closeCalled (tr : List (Label M E)) : Bool :=
 def streamOpened (tr : List (Label M E)) : Bool :=
   tr.any (fun l => match l with | .outStreamRet .ok => true | _ => false)
 
+/-- external cancellations / deadline expiries, in order -/
+def ctxDones (tr : List (Label M E)) : List Why := tr.filterMap ctxWhy?
 /-- first external cancellation -/
-def firstCtxDone : List (Label M E) → Option Why
-  | [] => none
-  | .ctxDone w :: _ => some w
-  | _ :: t => firstCtxDone t
+def firstCtxDone (tr : List (Label M E)) : Option Why := (ctxDones tr).head?
 
-/-- error values the peers returned anywhere in the trace -/
-def peerErrors : List (Label M E) → List E
-  | [] => []
-  | .incRecvRet (.err e) :: t => e :: peerErrors t
-  | .incSendRet (.err e) :: t => e :: peerErrors t
-  | .outStreamRet (.err e) :: t => e :: peerErrors t
-  | .outSendRet (.err e) :: t => e :: peerErrors t
-  | .outRecvRet (.err e) :: t => e :: peerErrors t
-  | _ :: t => peerErrors t
+/-- error values the stream operations returned anywhere in the trace -/
+def peerErrors (tr : List (Label M E)) : List E := tr.filterMap peerErr?
 
-/-- What a completed fault-free call must return (C01 "followed by the target's final status"):
-    the target's status if it sent one; nil on EOF — except the two unary protocol violations. -/
-def expectedReturn (p : Params) (tr : List (Label M E)) : Option (Option (Err E)) :=
-  if p.ss = false ∧ (outReceived tr).length ≥ 2 then some none  -- misbehaving target: 2nd response dropped, EOF simulated
-  else match targetFinal tr with
+/-- What a completed fault-free call must return, as a function of the target's terminal results `fin`,
+    the responses it produced `recv` and `ueof` = the client of a unary-request method sent EOF instead of a request (C01 "followed by the target's
+    final status"): the target's status if it sent one; nil on EOF — except the two unary protocol
+    violations, and the misbehaving unary target whose second response is dropped (EOF simulated). -/
+def expect (p : Params) (fin : List (Option E)) (recv : List M) (ueof : Bool) : Option (Option (Err E)) :=
+  if p.ss = false ∧ 2 ≤ recv.length then some none
+  else match fin.head? with
   | some (some e) => some (some (.peer e))
-  | some none => if p.ss = false ∧ (outReceived tr).isEmpty then some (some .serverEOF) else some none
-  | none => if p.cs = false ∧ clientClosed tr then some (some .clientEOF) else none
+  | some none => if p.ss = false ∧ recv.isEmpty = true then some (some .serverEOF) else some none
+  | none => if ueof = true then some (some .clientEOF) else none
 
-/-- Where may a returned error come from (C02 "reports the target's status if the target ended it,
-    otherwise the error of the side that failed"). -/
-def originOK [DecidableEq E] (p : Params) (tr : List (Label M E)) : Option (Err E) → Bool
-  | none => targetFinal tr == some none || (!p.ss && (outReceived tr).length ≥ 2)
-  | some (.peer e) => (peerErrors tr).contains e
-  | some (.ctx w) => firstCtxDone tr == some w
-  | some .clientEOF => !p.cs && clientClosed tr
-  | some .serverEOF => !p.ss && targetFinal tr == some none && (outReceived tr).isEmpty
+def expectedReturn (p : Params) (tr : List (Label M E)) : Option (Option (Err E)) :=
+  expect p (outFinals tr) (outReceived tr) (!p.cs && clientClosed tr)
+
+/-- Where may a returned value come from (C02 "reports the target's status if the target ended it,
+    otherwise the error of the side that failed"): nil only after the target's EOF (or the dropped second
+    unary response), an error value only if some stream operation returned it, the context error only
+    after an external cancellation of that kind came first, the synthesized Unavailable errors only in
+    their situations. -/
+def origin [DecidableEq E] (p : Params) (fin : List (Option E)) (recv : List M) (errs : List E)
+    (cxs : List Why) (ceof : Bool) : Option (Err E) → Bool
+  | none => fin.head? == some none || (!p.ss && decide (2 ≤ recv.length))
+  | some (.peer e) => errs.contains e
+  | some (.ctx w) => cxs.head? == some w
+  | some .clientEOF => !p.cs && ceof
+  | some .serverEOF => !p.ss && fin.head? == some none && recv.isEmpty
+
+def originOK [DecidableEq E] (p : Params) (tr : List (Label M E)) (e : Option (Err E)) : Bool :=
+  origin p (outFinals tr) (outReceived tr) (peerErrors tr) (ctxDones tr) (clientClosed tr) e
 
 /-! ### C02 vocabulary -/
 
